@@ -434,12 +434,10 @@ func (vfs *MemFS) Lstat(path string) (fs.FileInfo, error) {
 		op = "CreateFile"
 	}
 
-	_, child, pi, err := vfs.searchNode(path, slmLstat)
-	if err != vfs.err.FileExists || child == nil {
+	fst, err := vfs.stat(path, slmLstat)
+	if err != nil {
 		return nil, &fs.PathError{Op: op, Path: path, Err: err}
 	}
-
-	fst := child.fillStatFrom(pi.Part())
 
 	return fst, nil
 }
@@ -1142,14 +1140,57 @@ func (vfs *MemFS) Stat(path string) (fs.FileInfo, error) {
 		op = "CreateFile"
 	}
 
-	_, child, pi, err := vfs.searchNode(path, slmStat)
-	if err != vfs.err.FileExists || child == nil {
+	fst, err := vfs.stat(path, slmStat)
+	if err != nil {
 		return nil, &fs.PathError{Op: op, Path: path, Err: err}
 	}
 
-	fst := child.fillStatFrom(pi.Part())
-
 	return fst, nil
+}
+
+// stat returns the attributes of the node path leads to as one snapshot:
+// the directory of the entry stays read locked while the node is read,
+// so that a concurrent Remove or Rename of the entry is seen as a whole or not at all.
+func (vfs *MemFS) stat(path string, slMode slMode) (*MemInfo, error) {
+	for {
+		parent, child, pi, err := vfs.searchNode(path, slMode)
+		if err != vfs.err.FileExists || child == nil {
+			return nil, err
+		}
+
+		name := pi.Part()
+		entry := name
+
+		if slMode == slmStat {
+			// the info is named after the path, the entry may be the one
+			// a final symbolic link leads to.
+			parent, child, pi, err = vfs.searchNode(path, slmEval)
+			if err != vfs.err.FileExists || child == nil {
+				continue
+			}
+
+			entry = pi.Part()
+		}
+
+		if parent == nil || node(parent) == child {
+			return child.fillStatFrom(name), nil
+		}
+
+		parent.mu.RLock()
+
+		if parent.children[entry] != child {
+			// the entry was removed or replaced since it was found.
+			parent.mu.RUnlock()
+
+			continue
+		}
+
+		fst := child.fillStatFrom(name)
+
+		parent.mu.RUnlock()
+
+		return fst, nil
+	}
 }
 
 // Sub returns an FS corresponding to the subtree rooted at dir.
